@@ -42,8 +42,9 @@ def _spring(system, body, anchor, B_r, k, l_ref, name="spring"):
     return [tpi, Spring(tpi, k, l_ref=l_ref, compliance_form=False, name=name)]
 
 
-def _moving_frame():
-    """frame that translates and rotates about a generic axis (rheonomic constraint partner)"""
+def _moving_frame(from_rest=False):
+    """frame that translates and rotates about a generic axis (rheonomic constraint partner); from_rest: the motion
+    starts with zero velocity at t=0 (1 - cos instead of sin)"""
     from cardillo.discrete import Frame
     from vp.core.alphabet import skew
 
@@ -61,6 +62,14 @@ def _moving_frame():
     r = lambda t: amp * math.sin(2.1 * t)
     r_t = lambda t: amp * 2.1 * math.cos(2.1 * t)
     r_tt = lambda t: -amp * 2.1 ** 2 * math.sin(2.1 * t)
+    if from_rest:
+        a, w = 0.9, 9.0  # fast enough that the frame really moves within the first 20 steps of the smallest step size too
+        th = lambda t: a * (1 - math.cos(w * t))
+        th_t = lambda t: a * w * math.sin(w * t)
+        th_tt = lambda t: a * w * w * math.cos(w * t)
+        r = lambda t: amp * (1 - math.cos(7.0 * t))
+        r_t = lambda t: amp * 7.0 * math.sin(7.0 * t)
+        r_tt = lambda t: amp * 49.0 * math.cos(7.0 * t)
     return Frame(r_OP=r, r_OP_t=r_t, r_OP_tt=r_tt, A_IB=A, A_IB_t=A_t, A_IB_tt=A_tt, name="drive")
 
 
@@ -169,8 +178,8 @@ def _contributions(scen, system, spring, grav=True):
         gravity(b, 1.2)
         if spring:
             rest += _spring(system, b, rj + Q @ [1.0, 0.0, 0.0], [0.0, 0.0, 0.0], 30.0, 0.5)
-    elif scen == "driven_pend":
-        fr = _moving_frame()
+    elif scen in ("driven_pend", "driven_pend_rest"):
+        fr = _moving_frame(from_rest=scen.endswith("rest"))
         b = _rb(0.9, (0.04, 0.06, 0.05), fr.r_OP(0.0) + Q @ [0.0, 0.0, -0.6], pg, "pend")
         bodies = [b]
         rest.append(fr)
@@ -243,7 +252,7 @@ def build(scen, spring=False, level=1, seed=0, grav=True, opts=None):
 # --------------------------------------------------------------------------------------------
 # running solvers
 # --------------------------------------------------------------------------------------------
-FIXED_STEP = ("Rattle", "BackwardEuler", "Moreau", "DSV_LU", "DSV_default")
+FIXED_STEP = ("Rattle", "BackwardEuler", "Moreau", "DSV_LU", "DSV_default", "DSV_LU_plain")
 
 
 def run(system, solver, dt, nsteps, opts=None, dae_tol=(1e-7, 1e-9), ivp_tol=(1e-9, 1e-11)):
@@ -265,6 +274,8 @@ def run(system, solver, dt, nsteps, opts=None, dae_tol=(1e-7, 1e-9), ivp_tol=(1e
             return S.DualStormerVerlet(system, t1, dt, options=opts, linear_solver="LU", constant_mass_matrix=False).solve()
         if solver == "DSV_default":
             return S.DualStormerVerlet(system, t1, dt, options=opts).solve()
+        if solver == "DSV_LU_plain":
+            return S.DualStormerVerlet(system, t1, dt, options=opts, linear_solver="LU", accelerated=False).solve()
         if solver == "ScipyDAE":
             return S.ScipyDAE(system, t1, dt, rtol=dae_tol[0], atol=dae_tol[1]).solve()
         if solver == "ScipyIVP":
